@@ -36,4 +36,10 @@ def jobs(tier):
                      stubs=["expire function = ghost counter, may fail at the k-th call", "DBusTimeout = record"],
                      bounds=f"{p} items, each immediate / 50 s old / 1 s old; timeout infinite or 25 s; now = 100 s; failing call index symbolic",
                      shape=f"expiry pass over {p} items", cost=p))
+    # the gate that opens and consults reply slots (bus_context_check_security_policy, job shared with C06.f): a reply slot is opened only for a method call
+    # that passed every check, and the pending-reply table is consulted exactly once per reply
+    import importlib.util, os
+    sp6 = importlib.util.spec_from_file_location("vfjobs_x_C06", os.path.join(os.path.dirname(__file__), "C06.py")); m6 = importlib.util.module_from_spec(sp6); m6.Job = Job; sp6.loader.exec_module(m6)
+    for j in m6.jobs(tier):
+        if j.name == "f.gate": j.group = "C09.gate"; j.name = "gate.reply_slots"; J.append(j)
     return J
